@@ -380,6 +380,7 @@ class RawWorld:
         """returns (status, file, object, slots); status in ok/missing/loop; slots = set of
         (file, group address, name) looked up on the way"""
         slots = set()
+        self.last_sym = False          # did the traversal cross a soft or external link?
         if f not in self.h:
             return "missing", None, None, slots
         cur_f, cur = f, self.h[f]["/"]
@@ -397,9 +398,11 @@ class RawWorld:
             if l is None:
                 return "missing", None, None, slots
             if isinstance(l, h5py.SoftLink):
+                self.last_sym = True
                 cur = self.h[cur_f]["/"]
                 todo = comps(l.path) + todo
             elif isinstance(l, h5py.ExternalLink):
+                self.last_sym = True
                 f2 = os.path.basename(l.filename)[:1]
                 if f2 not in self.h:
                     return "missing", None, None, slots
